@@ -27,8 +27,12 @@ import (
 
 type delims struct {
 	name            string
-	l, r, cl, cr    string
+	l, r, cl, cr    string // effective markers
 	custom, ccustom bool
+	// what is passed to WithDelims / WithCommentDelims when it differs from the effective
+	// markers: an empty string leaves that side at its default (one-sided configurations)
+	optL, optR, optCL, optCR string
+	oneSided                 bool
 }
 
 var delimConfigs = []delims{
@@ -39,6 +43,29 @@ var delimConfigs = []delims{
 	{name: "shared-first-byte", l: "{%", r: "%}", cl: "{#", cr: "#}", custom: true, ccustom: true},
 	{name: "custom-comment-only", l: "{{", r: "}}", cl: "/*", cr: "*/", ccustom: true},
 	{name: "long", l: "<?jet", r: "?>", cl: "<!--", cr: "-->", custom: true, ccustom: true},
+	{name: "long-right", l: "{{{", r: "}}}", cl: "{*", cr: "*}", custom: true},
+	{name: "left-only", l: "<%", r: "}}", cl: "{*", cr: "*}", custom: true, oneSided: true, optL: "<%", optR: ""},
+	{name: "right-only", l: "{{", r: "%>", cl: "{*", cr: "*}", custom: true, oneSided: true, optL: "", optR: "%>"},
+	{name: "comment-left-only", l: "{{", r: "}}", cl: "/*", cr: "*}", ccustom: true, oneSided: true, optCL: "/*", optCR: ""},
+}
+
+func (d delims) options() []jet.Option {
+	var o []jet.Option
+	if d.custom {
+		if d.oneSided {
+			o = append(o, jet.WithDelims(d.optL, d.optR))
+		} else {
+			o = append(o, jet.WithDelims(d.l, d.r))
+		}
+	}
+	if d.ccustom {
+		if d.oneSided {
+			o = append(o, jet.WithCommentDelims(d.optCL, d.optCR))
+		} else {
+			o = append(o, jet.WithCommentDelims(d.cl, d.cr))
+		}
+	}
+	return o
 }
 
 var fragments = []string{
@@ -102,14 +129,7 @@ func RunC02(env *sim.Env) {
 				for p, c := range files {
 					pl.Set(p, c)
 				}
-				po := []jet.Option{}
-				if dc.custom {
-					po = append(po, jet.WithDelims(dc.l, dc.r))
-				}
-				if dc.ccustom {
-					po = append(po, jet.WithCommentDelims(dc.cl, dc.cr))
-				}
-				_, perr := jet.NewSet(pl, po...).GetTemplate(victim)
+				_, perr := jet.NewSet(pl, dc.options()...).GetTemplate(victim)
 				valid = perr == nil
 			})
 		})
@@ -133,13 +153,7 @@ func RunC02(env *sim.Env) {
 	for i := 0; i < nFaults; i++ {
 		ld.Arm(names[t.Choose(len(names))], 1+t.Choose(5), t.Choose(12))
 	}
-	sopts := []jet.Option{}
-	if dc.custom {
-		sopts = append(sopts, jet.WithDelims(dc.l, dc.r))
-	}
-	if dc.ccustom {
-		sopts = append(sopts, jet.WithCommentDelims(dc.cl, dc.cr))
-	}
+	sopts := dc.options()
 	devMode := t.Choose(4) == 3
 	if devMode {
 		sopts = append(sopts, jet.InDevelopmentMode())
@@ -298,7 +312,9 @@ func mutate(t *sim.Tape, s string, d delims) (string, string) {
 		fallthrough
 	case 4, 5: // splice a lexer-relevant fragment, preferably inside an action
 		f := fragments[t.Choose(len(fragments))]
-		if d.name != "default" {
+		// usually in the configured delimiters; sometimes verbatim (default markers inside a
+		// custom-delimiter template are legal input too)
+		if d.name != "default" && t.Choose(3) > 0 {
 			f = redelim(f, d)
 		}
 		at := t.Choose(len(s) + 1)
